@@ -261,10 +261,15 @@ def predict_warnings(text, in_policy, encoding, query_kind, out_policy, out_deli
         exp.append(('fields', (first_two[0][1], first_two[0][0], first_two[1][1], first_two[1][0])))
     out_rows = []
     for r in ref.records:
+        a1, a2 = (r[0] if len(r) > 0 else None), (r[1] if len(r) > 1 else None)
         if query_kind == 'star':
             out_rows.append(list(r))
+        elif query_kind == 'list':
+            out_rows.append([a1, None if a2 is None else 'x', a2])      # select a1, [a1, a2]: the None sits INSIDE a list-valued field
+        elif query_kind == 'agg':
+            out_rows.append([a1, a2])                                      # select a1, ARRAY_AGG(a2) group by a1: ditto
         else:
-            out_rows.append([r[0] if len(r) > 0 else None, r[1] if len(r) > 1 else None])
+            out_rows.append([a1, a2])
     if any(v is None for r in out_rows for v in r):
         exp.append(('none', ()))
     if out_policy == 'simple' and any(out_delim in (v or '') for r in out_rows for v in r):
@@ -297,7 +302,7 @@ def leg_warnings(ns, res, spec):
                 text = '﻿' + text
             elif rng.random() < 0.3:
                 text = rng.choice(['é', '€', 'ï»¿', ' ']) + text      # a non-ASCII first character that is not a BOM
-            query_kind = rng.choice(['star', 'two'])
+            query_kind = rng.choice(['star', 'two', 'two', 'list', 'agg'])
             out_policy, out_delim = rng.choice([('simple', ';'), ('quoted', ','), ('simple', '\t')])
             exp = predict_warnings(text, 'quoted', encoding, query_kind, out_policy, out_delim)
             if exp is None:
@@ -307,7 +312,7 @@ def leg_warnings(ns, res, spec):
             try:
                 it = ns.csv.CSVRecordIterator(io.BytesIO(text.encode('utf-8')), encoding, ',', 'quoted')
                 w = ns.csv.CSVWriter(io.BytesIO(), False, encoding, out_delim, out_policy)
-                ns.rbql.query('select *' if query_kind == 'star' else 'select a1, a2', it, w, warnings)
+                ns.rbql.query({'star': 'select *', 'two': 'select a1, a2', 'list': 'select a1, [a1, a2]', 'agg': 'select a1, ARRAY_AGG(a2) group by a1'}[query_kind], it, w, warnings)
             except Exception as e:
                 err = util.error_class(e)
             res.evaluations += 1
